@@ -29,6 +29,10 @@ pending = json.load(open(PENDING))
 todo = [(cid, i) for cid in sorted(pending) if not ids or cid in ids for i in range(len(pending[cid]))]
 for cid, idx in todo:
     ent = pending[cid][idx]
+    cur = json.load(open(PENDING)).get(cid, [])
+    now = [e for e in cur if e.get("entry") == ent.get("entry") and e.get("name") == ent.get("name")]
+    if not now or now[0].get("tried"):
+        continue  # promoted or tried meanwhile (another instance may be running)
     cfg = json.load(open("/verif/checks/%s.json" % cid))
     if "wanted" in ent:
         h = next(x for x in cfg["harnesses"] if x["entry"] == ent["entry"] and x.get("name") == ent.get("name"))
